@@ -1,6 +1,7 @@
 package rules
 
 import (
+	"fmt"
 	"go/token"
 	"go/types"
 	"strings"
@@ -410,4 +411,74 @@ func returnsContainer(f *ssa.Function) bool {
 		}
 	}
 	return false
+}
+
+// GLOBADDR: the address of a package-level variable does not travel. GLOB sees the writes that name the variable;
+// a write through a pointer that was stored in a struct, returned or handed to another function of the module is a
+// write to the same shared variable that names nothing. So, outside initialisers, the address of a package-level
+// variable of the module (or of one of its fields) is only used on the spot: loaded from, stored to, or handed to a
+// function outside the module (a mutex method, a regexp method).
+func (c *Ctx) GLOBADDR(rule string) []report.Obligation {
+	var out []report.Obligation
+	n := 0
+	for _, f := range c.P.Funcs {
+		if isInitFunc(f) {
+			continue
+		}
+		for _, b := range f.Blocks {
+			for _, in := range b.Instrs {
+				for _, op := range in.Operands(nil) {
+					if *op == nil {
+						continue
+					}
+					var g *ssa.Global
+					switch a := (*op).(type) {
+					case *ssa.Global:
+						g = a
+					case *ssa.FieldAddr:
+						if gg, ok := a.X.(*ssa.Global); ok {
+							g = gg
+						}
+					}
+					if g == nil || g.Pkg == nil || !c.P.IsModulePkg(g.Pkg.Pkg) {
+						continue
+					}
+					n++
+					how := ""
+					switch x := in.(type) {
+					case *ssa.Store:
+						if x.Val == *op {
+							how = "stored (into " + c.P.KeyTerm(x.Addr, 1) + ")"
+						}
+					case *ssa.Return:
+						how = "returned"
+					case *ssa.Phi:
+						how = "merged with other pointers"
+					case *ssa.MakeInterface:
+						how = "put into an interface"
+					case *ssa.MapUpdate:
+						how = "stored in a map"
+					case *ssa.Send:
+						how = "sent on a channel"
+					case ssa.CallInstruction:
+						com := x.Common()
+						if cal := com.StaticCallee(); cal != nil && c.P.InModule(cal) && cal.Blocks != nil {
+							how = "handed to " + c.P.FuncID(cal)
+						} else if cal == nil && !com.IsInvoke() {
+							if _, isB := com.Value.(*ssa.Builtin); !isB {
+								how = "handed to a function value"
+							}
+						}
+					}
+					if how != "" {
+						out = append(out, bad(rule, c.P.FuncID(f)+" :: the address of "+g.Pkg.Pkg.Name()+"."+g.Name()+" is "+how, c.P.InstrPos(in),
+							"the address of the package-level variable leaves the expression it is taken in: whoever holds the pointer writes the one shared variable (options, state) without naming it, so a later call or a concurrent one sees what an earlier one set"))
+					}
+				}
+			}
+		}
+	}
+	c.Stats[rule+".uses"] = n
+	out = append(out, ok2(rule, "inventory", "", fmt.Sprintf("%d uses of the address of a package-level variable outside initialisers: each is a load, a store or a call into a package outside the module", n)))
+	return out
 }
